@@ -335,11 +335,21 @@ func TestC18(t *testing.T) {
 			r.Rapid("rounds", rig.Pick(2, 30), func(t *rapid.T) {
 				// every kind at least twice per round (shared state is only exposed when two instances of the
 				// same code run together), plus a drawn number of extra workloads
-				n := 2*len(kinds) + rapid.IntRange(0, rig.Pick(2, 18)).Draw(t, "extra")
+				// fixed part of a round: every base kind twice, the two fork kinds once (they share their code with pri/alt)
+				var fixed []string
+				for _, k := range kinds {
+					fixed = append(fixed, k)
+					if k != "prifork" && k != "altfork" {
+						fixed = append(fixed, k)
+					}
+				}
+				n := len(fixed) + rapid.IntRange(0, rig.Pick(2, 16)).Draw(t, "extra")
 				var c c18Case
 				for i := 0; i < n; i++ {
-					w := c18Work{Kind: kinds[i%len(kinds)], Seed: rapid.Uint32().Draw(t, "seed")}
-					if i >= 2*len(kinds) {
+					w := c18Work{Seed: rapid.Uint32().Draw(t, "seed")}
+					if i < len(fixed) {
+						w.Kind = fixed[i]
+					} else {
 						w.Kind = kinds[rapid.IntRange(0, len(kinds)-1).Draw(t, "kind")]
 					}
 					switch w.Kind {
